@@ -8,13 +8,13 @@ import (
 // generators of "registration program + requests" cases for C04, C05, C12 (executor: rp.go)
 
 type rpGen struct {
-	r       *Rng
-	nextMW  int   // next middleware id (1..)
-	nextRt  int   // next route number
-	hs      []Sx  // handler table
-	reqs    []Sx  // requests
-	routeIx int   // index of the next registered route (registration order)
-	mwBody  func(g *rpGen, id int) []Sx
+	r        *Rng
+	nextMW   int  // next middleware id (1..)
+	nextRt   int  // next route number
+	hs       []Sx // handler table
+	reqs     []Sx // requests
+	routeIx  int  // index of the next registered route (registration order)
+	mwBody   func(g *rpGen, id int) []Sx
 	depthMax int
 	lists    [][]Sx
 	dynamic  bool // some routes are dynamic ("/r7/{id}")
